@@ -481,6 +481,7 @@ XSD_11_BUILTIN_TYPES: tuple[dict[str, Any], ...] = XSD_COMMON_BUILTIN_TYPES + (
         'python_type': datatypes.DayTimeDuration,
         'base_type': nm.XSD_DURATION,
         'to_python': datatypes.DayTimeDuration.fromstring,
+        'facets': [Element(nm.XSD_PATTERN, value=r"[^YM]*(T.*)?")],
     },  # PnYnMnDTnHnMnS with month a year equal to 0
     {
         'name': nm.XSD_YEAR_MONTH_DURATION,
@@ -488,6 +489,7 @@ XSD_11_BUILTIN_TYPES: tuple[dict[str, Any], ...] = XSD_COMMON_BUILTIN_TYPES + (
         'python_type': datatypes.YearMonthDuration,
         'base_type': nm.XSD_DURATION,
         'to_python': datatypes.YearMonthDuration.fromstring,
+        'facets': [Element(nm.XSD_PATTERN, value=r"[^DT]*")],
     },  # PnYnMnDTnHnMnS with day and time equals to 0
     # --- xs:error primitive type (XSD 1.1) ---
     {
